@@ -190,3 +190,130 @@ Proof.
     { apply existsb_exists. exists p. split; [exact Hin|]. apply ls_str_eqb_eq. exact Hp. }
     congruence.
 Qed.
+
+Lemma discover_roots_nodup tree : forall roots acc acc',
+  discover_roots tree acc roots = Ok acc' -> NoDup (map sp_name acc) -> NoDup (map sp_name acc').
+Proof.
+  induction roots as [|r roots IH]; intros acc acc' H Hnd; cbn in H.
+  - inversion H; subst. exact Hnd.
+  - destruct (add_all acc (discover_root tree r)) as [a|e|e] eqn:E; cbn in H; try discriminate.
+    eapply IH; [exact H|]. eapply add_all_nodup; eauto.
+Qed.
+
+Lemma ins_by_name_perm x l : Permutation (x :: l) (ins_by_name x l).
+Proof.
+  induction l as [|y l IH]; cbn; [apply Permutation_refl|].
+  destruct (str_ltb (sp_name x) (sp_name y)); [apply Permutation_refl|].
+  eapply perm_trans; [apply perm_swap|]. apply perm_skip. exact IH.
+Qed.
+Lemma sort_by_name_perm l : Permutation l (sort_by_name l).
+Proof.
+  induction l as [|x l IH]; cbn; [constructor|].
+  eapply perm_trans; [apply perm_skip; exact IH|]. apply ins_by_name_perm.
+Qed.
+
+Lemma discover_nodup tree roots specs : discover tree roots = Ok specs -> NoDup (map sp_name specs).
+Proof.
+  unfold discover. destruct (resolve_roots tree [] roots); [|discriminate].
+  destruct (discover_roots tree [] roots) as [l|e|e] eqn:E; cbn; intros H; inversion H; subst.
+  eapply Permutation_NoDup; [apply Permutation_map; apply sort_by_name_perm|].
+  eapply discover_roots_nodup; [exact E|constructor].
+Qed.
+
+Lemma read_inventory_ok inv shards : read_inventory inv = Ok shards -> shards = inv.
+Proof. unfold read_inventory. destruct (existsb sh_bad inv); intros H; inversion H; reflexivity. Qed.
+
+(** ------------------------------------------------------------------ C33: announced = performed *)
+Definition faithful (d f : result) : Prop :=
+  announced_removals (r_out d) = performed_removals (r_ops f) /\
+  announced_indexing (r_out d) = performed_indexing (r_ops f) /\
+  announced_up_to_date (r_out d) = announced_up_to_date (r_out f) /\
+  r_status d = r_status f.
+
+Lemma ann_rem_app a b : announced_removals (a ++ b) = announced_removals a ++ announced_removals b.
+Proof. apply filter_map_app. Qed.
+Lemma ann_idx_app a b : announced_indexing (a ++ b) = announced_indexing a ++ announced_indexing b.
+Proof. apply filter_map_app. Qed.
+Lemma ann_utd_app a b : announced_up_to_date (a ++ b) = announced_up_to_date a ++ announced_up_to_date b.
+Proof. apply filter_map_app. Qed.
+Lemma perf_rem_app a b : performed_removals (a ++ b) = performed_removals a ++ performed_removals b.
+Proof. apply filter_map_app. Qed.
+Lemma perf_idx_app a b : performed_indexing (a ++ b) = performed_indexing a ++ performed_indexing b.
+Proof. apply filter_map_app. Qed.
+
+Lemma ann_rem_wouldremove acts : announced_removals (map LWouldRemove acts) = map a_file acts.
+Proof. apply filter_map_map_some. reflexivity. Qed.
+Lemma perf_rem_ops acts : performed_removals (map (fun a => OpRemoveShard (a_file a)) acts) = map a_file acts.
+Proof. apply filter_map_map_some. reflexivity. Qed.
+
+Lemma run_sync_faithful tree w roots inv :
+  faithful (run_sync Dry tree w roots inv) (run_sync Force tree w roots inv).
+Proof.
+  unfold faithful, run_sync.
+  destruct (discover tree roots) as [specs|e|e] eqn:Ed; try (cbn; repeat split; reflexivity).
+  destruct (read_inventory inv) as [shards|e|e] eqn:Er; try (cbn; repeat split; reflexivity).
+  apply read_inventory_ok in Er. subst shards.
+  cbn [apply_removals lock_ops pass_f].
+  set (acts := plan_prune specs inv).
+  change (apply_ops inv []) with inv.
+  pose proof (index_repos_faithful w (map a_file acts) specs inv
+                (apply_ops inv (map (fun a => OpRemoveShard (a_file a)) acts)) (discover_nodup _ _ _ Ed)) as H.
+  assert (Hinv : forall s, In s specs ->
+     find_file (sp_name s, 0) (apply_ops inv (map (fun a => OpRemoveShard (a_file a)) acts)) =
+     if existsb (fkey_eqb (sp_name s, 0)) (map a_file acts) then None else find_file (sp_name s, 0) inv).
+  { intros s _. rewrite <- (map_map a_file OpRemoveShard). apply find_remove_files. }
+  specialize (H Hinv). cbn zeta in H. unfold ir_ops, ir_out, ir_failed in H.
+  destruct (index_repos Dry w (map a_file acts) specs inv) as [[dops dout] de].
+  destruct (index_repos Force w (map a_file acts) specs (apply_ops inv (map (fun a => OpRemoveShard (a_file a)) acts))) as [[fops fout] fe].
+  cbn [fst snd] in H. destruct H as (H1 & H2 & H3 & H4 & H5 & H6). subst fe.
+  assert (Hu1 : announced_up_to_date (map LWouldRemove acts) = []) by (apply filter_map_map_none; reflexivity).
+  assert (Hu2 : announced_up_to_date (map LRemoving acts) = []) by (apply filter_map_map_none; reflexivity).
+  assert (Hi1 : announced_indexing (map LWouldRemove acts) = []) by (apply filter_map_map_none; reflexivity).
+  assert (Hp1 : performed_indexing (map (fun a => OpRemoveShard (a_file a)) acts) = []) by (apply filter_map_map_none; reflexivity).
+  destruct de; cbn [r_out r_ops r_status];
+    rewrite ?ann_rem_app, ?ann_idx_app, ?ann_utd_app, ?perf_rem_app, ?perf_idx_app;
+    rewrite ?ann_rem_wouldremove, ?perf_rem_ops, ?H1, ?H2, ?H4, ?H5, ?Hu1, ?Hu2, ?Hi1, ?Hp1; cbn; rewrite ?app_nil_r;
+    repeat split; reflexivity.
+Qed.
+
+Lemma run_remove_faithful sels inv :
+  faithful (run_remove Dry sels inv) (run_remove Force sels inv).
+Proof.
+  unfold faithful, run_remove.
+  destruct (read_inventory inv) as [shards|e|e]; try (cbn; repeat split; reflexivity).
+  destruct (select_records (records shards) sels) as [sel|e|e]; try (cbn; repeat split; reflexivity).
+  cbn [apply_removals lock_ops pass_f r_out r_ops r_status].
+  set (acts := remove_actions sel shards).
+  rewrite ?ann_rem_app, ?ann_idx_app, ?ann_utd_app, ?perf_rem_app, ?perf_idx_app.
+  rewrite ann_rem_wouldremove, perf_rem_ops.
+  assert (Hu1 : announced_up_to_date (map LWouldRemove acts) = []) by (apply filter_map_map_none; reflexivity).
+  assert (Hu2 : announced_up_to_date (map LRemoving acts) = []) by (apply filter_map_map_none; reflexivity).
+  assert (Hi1 : announced_indexing (map LWouldRemove acts) = []) by (apply filter_map_map_none; reflexivity).
+  assert (Hp1 : performed_indexing (map (fun a => OpRemoveShard (a_file a)) acts) = []) by (apply filter_map_map_none; reflexivity).
+  rewrite Hu1, Hu2, Hi1, Hp1. cbn. rewrite ?app_nil_r. repeat split; reflexivity.
+Qed.
+
+Theorem announce_faithful : forall tree w c inv,
+  faithful (run Dry tree w c inv) (run Force tree w c inv).
+Proof. intros. destruct c; cbn [run]; [apply run_sync_faithful | apply run_remove_faithful]. Qed.
+
+(** ------------------------------------------------------------------ the preview before the repair (06cdaac) was not faithful *)
+Definition moved_tree : node :=
+  NDir [ ([114;49]%N, NDir []);                                                        (* r1: the repository is gone *)
+         ([114;50]%N, NDir [ ([114;101;112;111]%N, NDir [ (dot_git, NDir []) ]) ]) ].  (* r2/repo *)
+Definition moved_roots : list (list str) := [ [[114;49]%N]; [[114;50]%N] ].
+Definition moved_src_old : str := [47;114;49;47;114;101;112;111]%N.   (* /r1/repo *)
+Definition moved_src_new : str := [47;114;50;47;114;101;112;111]%N.   (* /r2/repo *)
+Definition moved_name : str := [114;101;112;111]%N.
+Definition moved_inv : inventory := [ mkShard (moved_name, 0) moved_name moved_src_old 7 false ].
+Definition moved_world : world_fp := [ (moved_src_new, Some 7%N) ].
+
+Lemma announce_faithful_refuted_before_fix_w :
+  NoDup (map sh_file moved_inv) /\
+  In moved_name (announced_up_to_date (run_sync_dry_prefix moved_tree moved_world moved_roots moved_inv)) /\
+  In (moved_name, 0) (announced_removals (run_sync_dry_prefix moved_tree moved_world moved_roots moved_inv)) /\
+  In moved_name (performed_indexing (r_ops (run_sync Force moved_tree moved_world moved_roots moved_inv))).
+Proof.
+  split; [repeat constructor; intros []|].
+  vm_compute. repeat split; left; reflexivity.
+Qed.
